@@ -76,6 +76,40 @@ pub enum OpResult {
 /// A `KBucketsTable<KeyBytes, u8>`.
 pub struct Table(KBucketsTable<KeyBytes, u8>);
 
+fn entry_insert_or_update(e: Option<Entry<'_, KeyBytes, u8>>, connected: bool) -> OpResult {
+    match e {
+        None => OpResult::LocalKey,
+        Some(Entry::Present(mut e, _)) => {
+            e.update(status(connected));
+            OpResult::UpdatedPresent
+        }
+        Some(Entry::Pending(e, _)) => {
+            e.update(status(connected));
+            OpResult::UpdatedPending
+        }
+        Some(Entry::Absent(e)) => match e.insert(0u8, status(connected)) {
+            InsertResult::Inserted => OpResult::Inserted,
+            InsertResult::Pending { .. } => OpResult::Pending,
+            InsertResult::Full => OpResult::Full,
+        },
+    }
+}
+
+fn entry_remove(e: Option<Entry<'_, KeyBytes, u8>>) -> OpResult {
+    match e {
+        None => OpResult::LocalKey,
+        Some(Entry::Present(e, _)) => {
+            e.remove();
+            OpResult::Removed
+        }
+        Some(Entry::Pending(e, _)) => {
+            e.remove();
+            OpResult::RemovedPending
+        }
+        Some(Entry::Absent(_)) => OpResult::Absent,
+    }
+}
+
 fn status(connected: bool) -> NodeStatus {
     if connected {
         NodeStatus::Connected
@@ -115,38 +149,12 @@ impl Table {
 
     /// `KBucketsTable::entry` followed by insert (absent) or status update (present / pending).
     pub fn insert_or_update(&mut self, key: &KeyBytes, connected: bool) -> OpResult {
-        match self.0.entry(key) {
-            None => OpResult::LocalKey,
-            Some(Entry::Present(mut e, _)) => {
-                e.update(status(connected));
-                OpResult::UpdatedPresent
-            }
-            Some(Entry::Pending(e, _)) => {
-                e.update(status(connected));
-                OpResult::UpdatedPending
-            }
-            Some(Entry::Absent(e)) => match e.insert(0u8, status(connected)) {
-                InsertResult::Inserted => OpResult::Inserted,
-                InsertResult::Pending { .. } => OpResult::Pending,
-                InsertResult::Full => OpResult::Full,
-            },
-        }
+        entry_insert_or_update(self.0.entry(key), connected)
     }
 
     /// `KBucketsTable::entry` followed by removal.
     pub fn remove(&mut self, key: &KeyBytes) -> OpResult {
-        match self.0.entry(key) {
-            None => OpResult::LocalKey,
-            Some(Entry::Present(e, _)) => {
-                e.remove();
-                OpResult::Removed
-            }
-            Some(Entry::Pending(e, _)) => {
-                e.remove();
-                OpResult::RemovedPending
-            }
-            Some(Entry::Absent(_)) => OpResult::Absent,
-        }
+        entry_remove(self.0.entry(key))
     }
 
     /// `KBucketsTable::bucket` (applies a ready pending entry of that bucket).
@@ -206,5 +214,74 @@ impl Table {
     /// `KBucketsTable::count_nodes_between`.
     pub fn count_nodes_between(&mut self, target: &KeyBytes) -> usize {
         self.0.count_nodes_between(target)
+    }
+}
+
+/// A single `KBucket<KeyBytes, u8>` (the unit `KBucketsTable::entry` selects by log-distance).
+pub struct Bucket(KBucket<KeyBytes, u8>);
+
+impl Bucket {
+    pub fn from_parts(
+        keys: &[KeyBytes],
+        capacity: usize,
+        first_connected_pos: Option<usize>,
+        pending: Option<(KeyBytes, bool, Instant)>,
+        pending_timeout: Duration,
+    ) -> Self {
+        let nodes = keys.iter().map(|k| Node { key: *k, value: 0u8 }).collect();
+        Bucket(KBucket::verif_from_parts(
+            nodes,
+            capacity,
+            first_connected_pos,
+            pending.map(|(k, c, t)| (Node { key: k, value: 0u8 }, status(c), t)),
+            pending_timeout,
+        ))
+    }
+
+    /// `KBucket::apply_pending`: (inserted, evicted).
+    pub fn apply_pending(&mut self) -> Option<(KeyBytes, Option<KeyBytes>)> {
+        self.0
+            .apply_pending()
+            .map(|a| (a.inserted.key, a.evicted.map(|n| n.key)))
+    }
+
+    /// `Entry::new` on this bucket followed by insert (absent) or status update.
+    pub fn insert_or_update(&mut self, key: &KeyBytes, connected: bool) -> OpResult {
+        entry_insert_or_update(Some(Entry::new(&mut self.0, key)), connected)
+    }
+
+    /// `Entry::new` on this bucket followed by removal.
+    pub fn remove(&mut self, key: &KeyBytes) -> OpResult {
+        entry_remove(Some(Entry::new(&mut self.0, key)))
+    }
+
+    pub fn len(&self) -> usize {
+        self.0.num_entries()
+    }
+
+    pub fn capacity(&self) -> usize {
+        self.0.verif_capacity()
+    }
+
+    pub fn key(&self, pos: usize) -> Option<KeyBytes> {
+        self.0.verif_node_at(pos).map(|n| n.key)
+    }
+
+    /// `KBucket::iter` status of the entry at `pos`.
+    pub fn connected(&self, pos: usize) -> Option<bool> {
+        self.0
+            .iter()
+            .nth(pos)
+            .map(|(_, s)| s == NodeStatus::Connected)
+    }
+
+    pub fn first_connected_pos(&self) -> Option<usize> {
+        self.0.verif_first_connected_pos()
+    }
+
+    pub fn pending(&self) -> Option<(KeyBytes, bool, Instant)> {
+        self.0
+            .verif_pending_parts()
+            .map(|(n, s, t)| (n.key, s == NodeStatus::Connected, t))
     }
 }
